@@ -40,7 +40,17 @@ def main():
     if rcw != 0:
         print("cannot create worktree: " + ow)
         return 2
-    shutil.copytree(os.path.join(src, "SEED"), os.path.join(wt, "SEED"))
+    if os.path.isdir(os.path.join(src, "SEED")):
+        shutil.copytree(os.path.join(src, "SEED"), os.path.join(wt, "SEED"))
+    else:
+        # the seeding worktree is gone: re-validate from what was filed under /verif/seeded/<name>
+        filed = os.path.join(ROOT, "seeded", name0)
+        os.makedirs(os.path.join(wt, "SEED"))
+        for fn in ("patch.diff", "demo.py"):
+            shutil.copy(os.path.join(filed, fn), os.path.join(wt, "SEED", fn))
+        prev = json.load(open(os.path.join(filed, "meta.json")))
+        if isinstance(prev.get("agent_meta"), dict):
+            json.dump(prev["agent_meta"], open(os.path.join(wt, "SEED", "meta.json"), "w"))
     no_tests = "--no-tests" in sys.argv
     tier = "thorough" if "--tier" in sys.argv and sys.argv[sys.argv.index("--tier") + 1] == "thorough" else "quick"
     extra = [a for a in sys.argv[3:] if a.startswith("C")]  # further properties to run the change against
